@@ -2,7 +2,6 @@ import RjModel.Lemmas.ExeLemmas
 /-! PE: alignment arithmetic and the pointer-moving loop of `add_section_to_pe` (for `Props/C19.lean`). -/
 namespace Rj.Exe
 
-def alignUp (x m : Nat) : Nat := ((x - 1) / m + 1) * m
 
 theorem alignUp_bounds (x m : Nat) (hx : 1 ≤ x) (hm : 1 ≤ m) : x ≤ alignUp x m ∧ alignUp x m < x + m := by
   unfold alignUp
